@@ -125,8 +125,32 @@ def peephole_demo():
           "%d sequences replayed through optimize(), %d differ" % (len(confs), len(drift)))
 
 
+def inline_demo():
+    base = "SPECIFICATION Spec\nCONSTANTS MaxLen = 3\n%sCHECK_DEADLOCK FALSE\n"
+    d = common.workdir("self_inl")
+
+    def run(name, extra, consts=""):
+        cfg = os.path.join(d, name + ".cfg")
+        open(cfg, "w").write(base % consts + extra)
+        return common.run_tlc("MCInline", cfg=cfg, name="self_inl_" + name, workers=4, heap="4g", timeout=600)
+    r = run("ok", "INVARIANT LabelsOK\nINVARIANT ClosedOK\nINVARIANT SizeOK\nINVARIANT ShapeOK\n")
+    if not r.ok or r.violated_invariant:
+        fail("Inline: the model of append_code violates %s" % r.violated_invariant)
+    r = run("mut", "INVARIANT ClosedOK\n", " Renamed <- NoBMI\n")
+    if r.violated_invariant != "ClosedOK":
+        fail("Inline: forgetting BMI in the list of renamed branches is not rejected by ClosedOK")
+    r = run("vac", "INVARIANT SomeBody\n")
+    if r.violated_invariant != "SomeBody":
+        fail("Inline: probe SomeBody is not reached (vacuous)")
+    from vf import inlinemodel
+    res, confs, drift = inlinemodel.run("self", 3, 2000)
+    print("selftest: Inline.tla satisfies LabelsOK/ClosedOK/SizeOK/ShapeOK, rejects a rename list without BMI; %d bodies pushed through append_code twice and nested, %d differ"
+          % (len(confs), len(drift)))
+
+
 if __name__ == "__main__":
     try:
+        inline_demo()
         peephole_demo()
         branchfix_demo()
         trace_demo()
